@@ -1,3 +1,169 @@
-use anyhow::{bail, Result};
-pub fn replay(_vecs: &str, _out: &str) -> Result<()> { bail!("todo") }
-pub fn record(_seed: u64, _n: usize, _out: &str) -> Result<()> { bail!("todo") }
+//! C17 (core part): the real `AsyncFilterSet` (`push`, `is_async`, `ensure_all_used`) driven by
+//! directive lists and worlds enumerated by TLC (replay) and by seeded random lists whose
+//! observed answers TLC re-derives from AsyncFilter.tla (record).
+use anyhow::Result;
+use serde_json::{json, Value};
+use vcommon::*;
+use wit_bindgen_core::AsyncFilterSet;
+use wit_parser::{Function, FunctionKind, Resolve, WorldItem, WorldKey};
+
+pub fn directive_text(d: &Value) -> String {
+    let en = d["en"].as_bool().unwrap();
+    let name = d["name"].as_str().unwrap();
+    let body = match d["kind"].as_str().unwrap() {
+        "all" => "all".to_string(),
+        "fn" => name.to_string(),
+        "import" => format!("import:{name}"),
+        "export" => format!("export:{name}"),
+        k => panic!("unknown kind {k}"),
+    };
+    if en { body } else { format!("-{body}") }
+}
+
+pub fn world_wit(items: &[String]) -> String {
+    let mut s = String::from(
+        "package t:p;\ninterface i {\n  g: func();\n  h: async func();\n  resource r { m: func(); }\n}\nworld w {\n",
+    );
+    for it in items {
+        s.push_str(match it.as_str() {
+            "if" => "  import f: func();\n",
+            "ef" => "  export f: func();\n",
+            "ii" => "  import i;\n",
+            "ei" => "  export i;\n",
+            "ek" => "  export k: async func();\n",
+            x => panic!("unknown item {x}"),
+        });
+    }
+    s.push_str("}\n");
+    s
+}
+
+fn declared_async(f: &Function) -> bool {
+    matches!(
+        f.kind,
+        FunctionKind::AsyncFreestanding | FunctionKind::AsyncMethod(_) | FunctionKind::AsyncStatic(_)
+    )
+}
+
+/// All functions of the world as (interface key, function, is_import).
+fn world_functions(resolve: &Resolve, wit: &str) -> Vec<(Option<WorldKey>, Function, bool)> {
+    let _ = wit;
+    let (wid, world) = resolve.worlds.iter().next().unwrap();
+    let _ = wid;
+    let mut out = Vec::new();
+    for (imp, items) in [(true, &world.imports), (false, &world.exports)] {
+        for (key, item) in items.iter() {
+            match item {
+                WorldItem::Function(f) => out.push((None, f.clone(), imp)),
+                WorldItem::Interface { id, .. } => {
+                    for (_, f) in resolve.interfaces[*id].functions.iter() {
+                        out.push((Some(key.clone()), f.clone(), imp));
+                    }
+                }
+                WorldItem::Type { .. } => {}
+            }
+        }
+    }
+    out
+}
+
+fn qualified(resolve: &Resolve, key: &Option<WorldKey>, f: &Function) -> String {
+    match key {
+        Some(k) => format!("{}#{}", resolve.name_world_key(k), f.name),
+        None => f.name.clone(),
+    }
+}
+
+/// Runs the real filter; returns (answers as [name, imp, decl, ans], ensure_all_used is error).
+fn observe(dirs: &[String], items: &[String], reverse: bool) -> Result<(Vec<Value>, bool)> {
+    let wit = world_wit(items);
+    let mut resolve = Resolve::default();
+    resolve.push_str("w.wit", &wit)?;
+    let mut set = AsyncFilterSet::default();
+    for d in dirs {
+        set.push(d);
+    }
+    let mut funcs = world_functions(&resolve, &wit);
+    if reverse {
+        funcs.reverse();
+    }
+    let mut answers = Vec::new();
+    for (key, f, imp) in &funcs {
+        let ans = set.is_async(&resolve, key.as_ref(), f, *imp);
+        answers.push(json!({"name": qualified(&resolve, key, f), "imp": imp, "decl": declared_async(f), "ans": ans}));
+    }
+    Ok((answers, set.ensure_all_used().is_err()))
+}
+
+pub fn replay(vecs: &str, out: &str) -> Result<()> {
+    let vecs = read_ndjson(vecs)?;
+    let mut w = NdjsonWriter::create(out)?;
+    for (i, v) in vecs.iter().enumerate() {
+        let dirs: Vec<String> = v["dirs"].as_array().unwrap().iter().map(directive_text).collect();
+        let items: Vec<String> = v["world"].as_array().unwrap().iter().map(|x| x.as_str().unwrap().to_string()).collect();
+        for reverse in [false, true] {
+            let (answers, err) = observe(&dirs, &items, reverse)?;
+            let mut problems = Vec::new();
+            // the world the harness built must be the world the spec talks about
+            let mut got_funcs: Vec<(String, bool, bool)> = answers
+                .iter()
+                .map(|a| (a["name"].as_str().unwrap().to_string(), a["imp"].as_bool().unwrap(), a["decl"].as_bool().unwrap()))
+                .collect();
+            let mut want_funcs: Vec<(String, bool, bool)> = v["funcs"]
+                .as_array()
+                .unwrap()
+                .iter()
+                .map(|a| (a["name"].as_str().unwrap().to_string(), a["imp"].as_bool().unwrap(), a["decl"].as_bool().unwrap()))
+                .collect();
+            got_funcs.sort();
+            want_funcs.sort();
+            if got_funcs != want_funcs {
+                problems.push(json!({"world_mismatch": got_funcs}));
+            }
+            let is_async = |name: &str, imp: bool| {
+                v["async"].as_array().unwrap().iter().any(|a| a["name"] == name && a["imp"] == imp)
+            };
+            for a in &answers {
+                let want = is_async(a["name"].as_str().unwrap(), a["imp"].as_bool().unwrap());
+                if a["ans"].as_bool().unwrap() != want {
+                    problems.push(json!({"func": a, "expected_async": want}));
+                }
+            }
+            if v["mustReject"].as_bool().unwrap() && !err {
+                problems.push(json!({"ensure_all_used": "accepted a directive that matched nothing"}));
+            }
+            if v["mustAccept"].as_bool().unwrap() && err {
+                problems.push(json!({"ensure_all_used": "rejected although every directive decided a function"}));
+            }
+            if !problems.is_empty() {
+                w.write(&json!({"i": i, "dirs": dirs, "world": items, "reverse": reverse, "problems": problems}))?;
+            }
+        }
+    }
+    w.write(&json!({"done": vecs.len()}))?;
+    w.finish()
+}
+
+pub fn record(seed: u64, n: usize, out: &str) -> Result<()> {
+    let mut rng = Rng::new(seed);
+    let mut w = NdjsonWriter::create(out)?;
+    let names = ["f", "t:p/i#g", "t:p/i#h", "t:p/i#[method]r.m", "g", "k", "t:p/i", "i#g", "t:p/i#[method]r", "all2"];
+    let all_items = ["if", "ef", "ii", "ei", "ek"];
+    for _ in 0..n {
+        let nd = rng.below(6);
+        let mut dirs = Vec::new();
+        for _ in 0..nd {
+            let kind = *rng.pick(&["all", "fn", "fn", "import", "export"][..]);
+            let name = if kind == "all" { "" } else { *rng.pick(&names[..]) };
+            dirs.push(json!({"en": rng.chance(1, 2), "kind": kind, "name": name}));
+        }
+        let mut items: Vec<String> = all_items.iter().filter(|_| rng.chance(3, 5)).map(|s| s.to_string()).collect();
+        if items.is_empty() {
+            items.push("ii".to_string());
+        }
+        let texts: Vec<String> = dirs.iter().map(directive_text).collect();
+        let (answers, err) = observe(&texts, &items, rng.chance(1, 2))?;
+        w.write(&json!({"dirs": dirs, "world": items, "answers": answers, "err": err}))?;
+    }
+    w.finish()
+}
